@@ -308,6 +308,160 @@ def mclennanTourky (nums : List Nat) (pays : List (List α)) (eps tolBR : α)
     (next : List (List α) → List (List α) → List α) (maxIter : Nat) (x0 : List α) : IGOut (List α) :=
   fixedPointIG (brSelection nums pays tolBR) (isEpsNash nums pays eps) next maxIter x0
 
+/-! ### polym_lcp_solver (quantecon/game_theory/howson_lcp.py 83-206): Howson's LCP
+
+A polymatrix game is `nums` (numbers of actions) and `A p p2 a b` = `polymatrix[(p, p2)][a, b]`
+(read only for `p ≠ p2` below the dimensions). `ta = Σ nums`, `n = ta + N`. Variables:
+column `k < n` is `w_k`, column `n + k` is `z_k` (`z = (x, v)`), column `2n` the right-hand side. -/
+
+/-- `(player, action)` of the flat action index `i` -/
+def locate : List Nat → Nat → Nat → Nat × Nat
+  | [], i, p => (p, i)
+  | k :: ks, i, p => if i < k then (p, i) else locate ks (i - k) (p + 1)
+
+/-- `range_of_payoffs()[1] + LOW_AVOIDER` over the flattened matrices -/
+def hPcm (entries : List α) : α :=
+  entries.tail.foldl (fun acc x => if acc < x then x else acc) (entries.headD 0) + (1 + 1)
+
+/-- the LCP matrix `M` of lines 87-110, entry `(i, j)`, `i, j < n` -/
+def hM (nums : List Nat) (A : Nat → Nat → Nat → Nat → α) (pcm : α) (ta : Nat) (i j : Nat) : α :=
+  if i < ta then
+    let pa := locate nums i 0
+    if j < ta then
+      let qb := locate nums j 0
+      if qb.1 = pa.1 then 0 else pcm - A pa.1 qb.1 pa.2 qb.2
+    else -(if j - ta = pa.1 then 1 else 0)
+  else
+    if j < ta then (if (locate nums j 0).1 = i - ta then 1 else 0) else 0
+
+/-- lines 114-118: `tableau = [I | -M | q]`, `q = (0,…,0,-1,…,-1)` -/
+def hTableau (nums : List Nat) (A : Nat → Nat → Nat → Nat → α) (pcm : α) : M α :=
+  let ta := nums.foldl (· + ·) 0
+  let n := ta + nums.length
+  M.tab n (2 * n + 1) fun i j =>
+    if j < n then (if i = j then 1 else 0)
+    else if j < 2 * n then -(hM nums A pcm ta i (j - n))
+    else (if i < ta then 0 else -(1 : α))
+
+structure HState (α : Type) where
+  T : M α
+  basis : List Nat
+  numIter : Nat
+  p : Int
+  retro : Bool
+  converging : Bool
+  /-- trace of the pivots `(column, row)` made in the main loop, latest first -/
+  trace : List (Nat × Nat)
+  /-- ghost: every ratio test so far has found a unique row (the code ignores this flag) and every
+      entering column was a variable column -/
+  allFound : Bool
+  /-- ghost counters: back-tracking steps; retro starts entering `finishing_x`; entering
+      `finishing_y`; retro starts at which `finishing_y` is basic but not in its original row -/
+  nBack : Nat
+  nRetroX : Nat
+  nRetroY : Nat
+  nMoved : Nat
+  /-- ghost: a back-tracking step was taken at level `p ≤ 0` (the level index became negative) -/
+  negP : Bool
+  /-- `p` left the range of Python's negative indexing (`IndexError`) -/
+  err : Bool
+  outOfFuel : Bool
+
+/-- lines 137-143: the `N` initial pivots bringing `x_{p, start_p}` into row `ta + p` -/
+def hInit (nums start : List Nat) (T0 : M α) : M α × List Nat :=
+  let ta := nums.foldl (· + ·) 0
+  let n := ta + nums.length
+  (List.range nums.length).foldl (fun (s : M α × List Nat) pl =>
+    let row := ta + pl
+    let col := n + indptr nums pl + start.getD pl 0
+    (pivot s.1 col row, s.2.set row col)) (T0, List.range n)
+
+/-- Python's `l[p]`-style index for `-N ≤ p < N` -/
+def pyIdx (N : Nat) (p : Int) : Nat := if p < 0 then (p + N).toNat else p.toNat
+
+/-- the two nested loops of lines 151-192, flattened: `pc = none` at the head of the outer
+    `while`, `some pivcol` inside the inner `while True`. -/
+def hRun (nums start : List Nat) (maxIter : Int) (tp td : α) :
+    Nat → HState α → Option Nat → HState α
+  | 0, st, _ => { st with outOfFuel := true }
+  | fuel + 1, st, none =>
+    let N := nums.length
+    let ta := nums.foldl (· + ·) 0
+    let n := ta + N
+    if st.p < N ∧ st.converging then
+      if st.p < -(N : Int) then { st with err := true }
+      else
+        let pi := pyIdx N st.p
+        let fv := ta + n + pi            -- Python: sum(nums) + n + p  (p itself, may be negative)
+        let fx := n + indptr nums pi + start.getD pi 0
+        let fy := fx - n
+        if st.p < 0 then
+          -- `finishing_v = ta + n + p` with a negative `p` is a different column: mirror it
+          let fvInt : Int := (ta : Int) + n + st.p
+          let pivcol := if ¬ st.retro then fvInt.toNat else if st.basis.contains fy then fx else fy
+          hRun nums start maxIter tp td fuel { st with retro := false } (some pivcol)
+        else
+          let inB := st.basis.contains fy
+          let pivcol := if ¬ st.retro then fv else if inB then fx else fy
+          let st1 := if st.retro then
+            { st with nRetroX := st.nRetroX + (if inB then 1 else 0),
+                      nRetroY := st.nRetroY + (if inB then 0 else 1),
+                      nMoved := st.nMoved + (if inB ∧ st.basis.getD fy 0 ≠ fy then 1 else 0) }
+            else st
+          hRun nums start maxIter tp td fuel { st1 with retro := false } (some pivcol)
+    else st
+  | fuel + 1, st, some pivcol =>
+    let N := nums.length
+    let ta := nums.foldl (· + ·) 0
+    let n := ta + N
+    if (st.numIter : Int) = maxIter then
+      hRun nums start maxIter tp td fuel { st with converging := false } none
+    else
+      let pi := pyIdx N st.p
+      let fvInt : Int := (ta : Int) + n + st.p
+      let fx := n + indptr nums pi + start.getD pi 0
+      let fy := fx - n
+      let res := lexMinRatio st.T pivcol 0 tp td
+      let r := res.2
+      let leaving := st.basis.getD r 0
+      let st1 : HState α :=
+        { st with T := pivot st.T pivcol r, basis := st.basis.set r pivcol, numIter := st.numIter + 1,
+                  trace := (pivcol, r) :: st.trace,
+                  allFound := st.allFound && res.1 && decide (pivcol < 2 * n) }
+      if leaving = fx ∨ leaving = fy then
+        hRun nums start maxIter tp td fuel { st1 with p := st.p + 1 } none
+      else if (leaving : Int) = fvInt then
+        let st2 : HState α := { st1 with p := st.p - 1, retro := true, nBack := st.nBack + 1 }
+        hRun nums start maxIter tp td fuel { st2 with negP := (st.negP || decide (st.p ≤ 0)) } none
+      else if leaving < n then hRun nums start maxIter tp td fuel st1 (some (leaving + n))
+      else hRun nums start maxIter tp td fuel st1 (some (leaving - n))
+
+/-- `_get_solution(tableau, basis, z)`: `z[k]`, the basic value of `z_k` (0 when non-basic) -/
+def hZ (T : M α) (basis : List Nat) (n k : Nat) : α :=
+  (List.range n).foldl (fun acc i => if basis.getD i 0 = k + n then T.get i (T.nc - 1) else acc) 0
+
+/-- `polym_lcp_solver(polymg, starting_player_actions, max_iter, full_output=True)`:
+    final state; the profile is `hNE` of it -/
+def polymLcp (nums start : List Nat) (A : Nat → Nat → Nat → Nat → α) (pcm : α) (maxIter : Int)
+    (tp td : α) (fuel : Nat) : HState α :=
+  let i0 := hInit nums start (hTableau nums A pcm)
+  hRun nums start maxIter tp td fuel
+    ⟨i0.1, i0.2, 0, 0, false, true, [], true, 0, 0, 0, 0, false, false, false⟩ none
+
+/-- `NE`: the `x` part of `z`, flattened -/
+def hNE (nums : List Nat) (st : HState α) : List α :=
+  let ta := nums.foldl (· + ·) 0
+  let n := ta + nums.length
+  (List.range ta).map fun k => hZ st.T st.basis n k
+
+/-- ghost certificate evaluated on the final state (not computed by the code): every basic value
+    is `≥ 0` and no label has both its variables basic -/
+def hCert (nums : List Nat) (st : HState α) : Bool :=
+  let ta := nums.foldl (· + ·) 0
+  let n := ta + nums.length
+  (List.range n).all (fun i => decide (0 ≤ st.T.get i (st.T.nc - 1))) &&
+  (List.range n).all (fun k => !(st.basis.contains k && st.basis.contains (k + n)))
+
 /-! ### maps used by the correspondence: affine maps, optionally clipped to a box -/
 
 /-- `T(v)_i = clip(Σ_j A[i][j] * v[j] + b[i])`, accumulated from `0` in the order of `j`,
@@ -366,6 +520,27 @@ def gameOk {β : Type} (nums : List Nat) (pays : List (List β)) : Bool :=
 
 def tolPivQ : Rat := 1 / 10000000000
 def tolDiffQ : Rat := 1 / 1000000000000000
+
+def polyA {β : Type} [Zero β] (nums : List Nat) (pm : List (List β)) (p p2 a b : Nat) : β :=
+  (pm.getD (p * (nums.length - 1) + (if p2 < p then p2 else p2 - 1)) []).getD (a * nums.getD p2 0 + b) 0
+
+def polyOk {β : Type} (nums start : List Nat) (pm : List (List β)) : Bool :=
+  let N := nums.length
+  N ≥ 2 && nums.all (· ≥ 1) && start.length == N &&
+  (List.range N).all (fun p => decide (start.getD p 0 < nums.getD p 0)) &&
+  pm.length == N * (N - 1) &&
+  (List.range N).all (fun p => (List.range N).all fun p2 =>
+    p2 == p || (pm.getD (p * (N - 1) + (if p2 < p then p2 else p2 - 1)) []).length == nums.getD p 0 * nums.getD p2 0)
+
+def showHowson {β : Type} (sh : β → String) (nums : List Nat) (st : HState β) (ne : List β) (cert : Bool) : String :=
+  if st.err then "ERR:IndexError" else if st.outOfFuel then "out-of-fuel" else
+  "conv=" ++ showBool st.converging ++ " it=" ++ toString st.numIter ++
+  " piv=" ++ showList (fun (cr : Nat × Nat) => toString cr.1 ++ ":" ++ toString cr.2) st.trace.reverse ++
+  " basis=" ++ showList toString st.basis ++ " ne=" ++ showList sh ne ++
+  " | back=" ++ toString st.nBack ++ " rx=" ++ toString st.nRetroX ++ " ry=" ++ toString st.nRetroY ++
+  " moved=" ++ toString st.nMoved ++ " allfound=" ++ showBool st.allFound ++ " cert=" ++ showBool cert ++
+  " negp=" ++ showBool st.negP ++
+  " N=" ++ toString nums.length
 
 /-- margin diagnostics (correspondence only): distance of the ε-Nash test from its threshold -/
 def nashMargin (nums : List Nat) (pays : List (List Rat)) (eps : Rat) (x : List Rat) : Rat :=
@@ -484,6 +659,25 @@ def handle (toks : List String) : String :=
         else "bad-op"
       else "bad-op"
     | _, _, _, _, _, _, _, _ => "bad-op"
+  | "howf" :: r =>
+    -- polym_lcp_solver, IEEE doubles
+    match kvNats r "nums", kvNats r "start", kvFloatMat r "pm", kvInt r "maxiter", kvNat r "fuel" with
+    | some nums, some start, some pm, some mi, some fuel =>
+      if polyOk nums start pm then
+        let st := polymLcp nums start (polyA nums pm) (hPcm pm.flatten) mi tolPivF tolRatioDiffF fuel
+        showHowson showFloatBits nums st (hNE nums st) (hCert nums st)
+      else "bad-op"
+    | _, _, _, _, _ => "bad-op"
+  | "how" :: r =>
+    -- the same at exact rationals; tolerances given (0 for the setting of the theorems)
+    match kvNats r "nums", kvNats r "start", kvRatMat r "pm", kvInt r "maxiter", kvNat r "fuel",
+          kvRat r "tolpiv", kvRat r "toldiff" with
+    | some nums, some start, some pm, some mi, some fuel, some tp, some td =>
+      if polyOk nums start pm then
+        let st := polymLcp nums start (polyA nums pm) (hPcm pm.flatten) mi tp td fuel
+        showHowson showRat nums st (hNE nums st) (hCert nums st)
+      else "bad-op"
+    | _, _, _, _, _, _, _ => "bad-op"
   | _ => "bad-op"
 
 end QE.C15
